@@ -15,13 +15,17 @@ PROPERTY = 'C01'
 RULE = ('configurations = routine x input x budget; inputs: every labelled 4-node graph with two vertex-disjoint edges '
         '(binary, distinct weights, and on a subset weights of 1e-9, negative weights, Fortran-ordered input), named 5-6 node graphs (path, cycle, star+edge, bow-tie, matching, bridged '
         'triangles), every 4-node digraph with 2-3 (thorough 4) arcs containing two vertex-disjoint arcs, named 5-6 node '
-        'digraphs; budgets 0,1,2 outer iterations (thorough 3); latticisers with all n! initial node orders; '
+        'digraphs; budgets 0,1,2 outer iterations (thorough 3); latticisers with all n! initial node orders, with D absent, with the default D passed explicitly and with another symmetric D; '
         'randomizer_bin_und on every 5-node graph x alpha in {0,0.5,1} by plain enumeration; every configuration is '
         'explored over ALL generator answers; a configuration is non-trivial when >= 2 distinct outputs are reachable')
 ASSUMPTIONS = ['continuous draws are only compared with thresholds by these routines; they are represented by one point on '
                'each side of every threshold', 'state merging by live-variable state keys (DESIGN.md 1.3), cross-checked '
                'against stateless enumeration by selftest/selftest.py',
                'float64 inputs with empty diagonal']
+
+
+EXPLICIT_D4 = [[0, 1, 2, 1], [1, 0, 1, 2], [2, 1, 0, 1], [1, 2, 1, 0]]       # what the latticisers build for n = 4 when D is None
+OTHER_D4 = [[0, 1, 3, 2], [1, 0, 2, 3], [3, 2, 0, 1], [2, 3, 1, 0]]
 
 
 def catalogue(thorough):
@@ -100,6 +104,11 @@ def catalogue(thorough):
                     continue
             for itr in (0, 1):
                 cfgs.append({'fn': fn, 'tag': tag + '_w', 'W': W, 'params': {'itr': itr, 'D': None}})
+                # the optional distance matrix supplied by the caller (the default one passed explicitly, and another)
+                if n == 4:
+                    cfgs.append({'fn': fn, 'tag': tag + '_w_Dexplicit', 'W': W, 'params': {'itr': itr, 'D': EXPLICIT_D4}})
+                    if itr == 1:
+                        cfgs.append({'fn': fn, 'tag': tag + '_w_Dother', 'W': W, 'params': {'itr': itr, 'D': OTHER_D4}})
     # a few strongly connected digraphs for latmio_dir_connected (4-cycle with chords)
     for tag, n, arcs in (('dcycle4', 4, [(0, 1), (1, 2), (2, 3), (3, 0)]),
                          ('dcycle4_chord', 4, [(0, 1), (1, 2), (2, 3), (3, 0), (0, 2)]))[:2 if thorough else 1]:
